@@ -277,7 +277,7 @@ class Generator(object):
 
     def get_addition_present_condition(self, type_):
         return ' || '.join(['src_p->{}is_{}_addition_present'.
-                            format(self.location_inner('', '.'), addition.name)
+                            format(self.location_inner('', '.'), canonical(addition.name))
                             for addition in type_.additions])
 
     def get_named_number_values(self, type_):
@@ -461,7 +461,8 @@ class Generator(object):
 
         if type_.additions is not None and len(type_.additions) > 0:
             for addition in type_.additions:
-                lines += ['bool is_{}_addition_present;'.format(addition.name)]
+                lines += ['bool is_{}_addition_present;'.format(
+                    canonical(addition.name))]
 
                 lines += self.add_sequence_member(addition, checker)
 
